@@ -723,7 +723,9 @@ class ListenerItem(ListenerBase):
 
         if remove:
             handler = next.unregister
-        elif self.deferred:
+        elif self.deferred and name not in object.__dict__:
+            # (As for simple traits: a value that is assigned already has to
+            # be followed right away, nothing will announce it later.)
             return INVALID_DESTINATION
         else:
             handler = next.register
@@ -818,7 +820,9 @@ class ListenerItem(ListenerBase):
 
         if remove:
             handler = next.unregister
-        elif self.deferred:
+        elif self.deferred and name not in object.__dict__:
+            # (As for simple traits: a value that is assigned already has to
+            # be followed right away, nothing will announce it later.)
             return INVALID_DESTINATION
         else:
             handler = next.register
